@@ -503,3 +503,78 @@ Example C11_det_D2_witness :
   let m := {| nr := 4; nc := 4; dat := [0;0;0;16; 16;0;0;0; 0;16;0;0; 0;0;16;0]%Q |} in
   option_map snd (matrix_lu QO m) = Some [1;2;3;0]%nat /\ matrix_det QO m = Some (-65536)%Q.
 Proof. split; vm_compute; reflexivity. Qed.
+
+(** ** Tie A: the models ARE the source (regenerated from /repo/src on every run by tools/tiea/linalg_loops.py).
+    [src_*] is the Rust function translated statement for statement: ONE flat row-major list mutated in place
+    ([rs_set] / [rs_get] / [rs_slice] / [rs_swap], index arithmetic [i * n + j] in [Z], a panic = [None]); the models work on
+    rows.  [is_square_z] is the crate's [is_square] (an [f32] square root, outside the translated subset) as the models
+    see it; [dot] is tied in C04 ([C04_model_is_source_dot]); [uninit] is the content of the cells exposed by
+    [unsafe { x.set_len(n) }]: the equalities hold for EVERY [uninit], so no such cell is read before it is written. *)
+From Compute Require Import Base.RsExpr Base.RsExprMut Generated.linalg_loops Proofs.TieA_linalg_loops.
+Local Close Scope R_scope.
+Theorem C11_model_is_source_forward_substitution :
+  forall (T : Type) (O : Ops T) (uninit : Z -> T) (l b : list T),
+    src_forward_substitution O is_square_z (dot O) uninit l b = forward_substitution O l b.
+Proof. exact @tiea_forward_substitution. Qed.
+Theorem C11_model_is_source_backward_substitution :
+  forall (T : Type) (O : Ops T) (uninit : Z -> T) (u b : list T),
+    src_backward_substitution O is_square_z (dot O) uninit u b = backward_substitution O u b.
+Proof. exact @tiea_backward_substitution. Qed.
+(** [is_matrix(m, nrows).unwrap()]: a zero [nrows] (division by zero) and [Err] are both [None] *)
+Theorem C11_model_is_source_is_matrix :
+  forall (T : Type) (O : Ops T) (m : list T) (nr : nat),
+    (let* r := src_is_matrix O m (Z.of_nat nr) in r) = option_map Z.of_nat (is_matrix (length m) nr).
+Proof. exact @tiea_is_matrix. Qed.
+(** the two nested loops with [return false] are the model's nested [forallb]; all reads [m[i*n+j]], [m[j*n+i]] are in bounds *)
+Theorem C11_model_is_source_is_symmetric :
+  forall (T : Type) (O : Ops T) (m : list T), src_is_symmetric O is_square_z m = is_symmetric O m.
+Proof. exact @tiea_is_symmetric. Qed.
+Theorem C11_model_is_source_is_positive_definite :
+  forall (T : Type) (O : Ops T) (m : list T), src_is_positive_definite O is_square_z m = is_positive_definite O m.
+Proof. exact @tiea_is_positive_definite. Qed.
+(** [for j in 0..ncols { for i in 0..nrows { at.push(a[i * ncols + j]) } }] is the flattened list of columns of the rows *)
+Theorem C11_model_is_source_transpose :
+  forall (T : Type) (O : Ops T) (a : list T) (nr : nat), src_transpose O a (Z.of_nat nr) = transpose O a nr.
+Proof. exact @tiea_transpose. Qed.
+(** the pivot vector is [&[i32]] in the source ([list Z]) and [list nat] in the model (a negative entry indexes out of
+    bounds in Rust); the data-driven [while perm[i] != i] is unrolled at most [fuel_] times (rule R3 of the translator): with
+    the model's own fuel, one more than the number of entries — enough by [C11_ipiv_parity_total] — the two agree, panics
+    (out-of-bounds entry, the assertion) included *)
+Theorem C11_model_is_source_ipiv_parity :
+  forall (T : Type) (O : Ops T) (ipiv : list nat),
+    src_ipiv_parity O (S (length ipiv)) (map Z.of_nat ipiv) = ipiv_parity ipiv.
+Proof. exact @tiea_ipiv_parity. Qed.
+(** Cholesky–Banachiewicz in place: the source fills one zero-initialised flat vector of [n * n] cells row by row, reads
+    the slices [&l[(j*n)..(j*n+j)]], [&l[(i*n)..(i*n+j)]] of the vector it is writing, and leaves by [return None] from
+    inside the two nested loops; the model keeps the finished rows and the prefix of the current row (invariant
+    [l = flatten L ++ r ++ zeros]).  Outer [None] = panic, [Some None] = a pivot is not positive.  The input fits the
+    address space ([vec![0.; n * n]] passes the allocation's capacity check of 2^60 - 1 cells). *)
+From Compute Require Import Proofs.TieA_linalg_chol.
+Theorem C11_model_is_source_try_cholesky :
+  forall (T : Type) (O : Ops T) (a : list T), (Z.of_nat (length a) <= 1152921504606846975)%Z ->
+    src_try_cholesky O is_square_z (dot O) a = try_cholesky O a.
+Proof. exact @tiea_try_cholesky. Qed.
+Theorem C11_model_is_source_cholesky :
+  forall (T : Type) (O : Ops T) (a : list T), (Z.of_nat (length a) <= 1152921504606846975)%Z ->
+    src_cholesky O is_square_z (dot O) a = cholesky O a.
+Proof. exact @tiea_cholesky. Qed.
+Theorem C11_model_is_source_cholesky_solve :
+  forall (T : Type) (O : Ops T) (uninit : Z -> T) (l b : list T),
+    src_cholesky_solve O is_square_z (dot O) uninit l b = cholesky_solve O l b.
+Proof. exact @tiea_cholesky_solve. Qed.
+(** [lu_solve]: the right-hand side gathered through the pivot vector into a zero vector, then the two in-place sweeps
+    [x[i] -= x[k] * lu[i * n + k]]; the model describes each sweep by what it does to every position.  Too many or
+    out-of-range pivots panic (out-of-bounds [x[i] = ..] resp. [b[..]]); [b] fits the address space. *)
+From Compute Require Import Proofs.TieA_linalg_lu.
+Theorem C11_model_is_source_lu_solve :
+  forall (T : Type) (O : Ops T) (lu : list T) (piv : list nat) (b : list T), (Z.of_nat (length b) <= 1152921504606846975)%Z ->
+    src_lu_solve O lu (map Z.of_nat piv) b = lu_solve O lu piv b.
+Proof. exact @tiea_lu_solve. Qed.
+(** pivoted LU IN PLACE on the flat vector (column update [lu[i * n + j] -= s] reading entries of the same column written
+    a moment earlier, pivot search, [lu.swap(p * n + k, j * n + k)] for every column, [pivots.swap(p, j)], multipliers) equals
+    the model's OUT-OF-PLACE column update on rows (the item listed under "trusted base" until now): the flat vector is
+    [flatten M] throughout, every index is in bounds, same operands in the same order. *)
+Theorem C11_model_is_source_lu :
+  forall (T : Type) (O : Ops T) (a : list T),
+    src_lu O is_square_z a = option_map (fun '(f, piv) => (f, map Z.of_nat piv)) (lu O a).
+Proof. exact @tiea_lu. Qed.
